@@ -36,6 +36,13 @@ def gen_cases(ctx):
                 cases.append({"kind": "catalogue", "inpkg": inpkg, "genseed": ctx.seed * 31 + inpkg, "idx": ch, "template": "testify", "formatter": "goimports",
                               "placement": "inpkg-test" if inpkg else rng.choice(["outpkg", "xtest"]), "td": td, "gomod": "plain", "srckind": "ordinary",
                               "drvseed": rng.randrange(1, 1 << 20), "td_level": rng.choice(["root", "iface"])})
+    # replace-type: the effective (replacement) type decides nillability, assertions and zero values of results
+    for k in range(4 if ctx.tier == "quick" else 20):
+        t1, t2 = REPLACE_TARGETS[k % len(REPLACE_TARGETS)], REPLACE_TARGETS[(k * 3 + 1) % len(REPLACE_TARGETS)]
+        u = [None, True, False][k % 3]
+        cases.append({"kind": "replace", "inpkg": False, "template": "testify", "formatter": "goimports", "placement": ["outpkg", "inpkg-test"][k % 2], "gomod": "plain",
+                      "srckind": "ordinary", "td": {} if u is None else {"unroll-variadic": u}, "drvseed": rng.randrange(1, 1 << 20),
+                      "replace": {"T": t1, "E": t2}})
     n = 6 if ctx.tier == "quick" else 60
     for k in range(n):
         u = [None, True, False][(ci + k) % 3]
@@ -46,13 +53,27 @@ def gen_cases(ctx):
     return cases
 
 
+REPLACE_TARGETS = ["I", "PT", "MT", "FT", "ST", "CT", "T"]
+
+
+def replace_case_ifaces(case):
+    qa = gosrc.Q["ma"]
+    body = ["Snap(k string) (%s.T, error)" % qa, "Tok() %s.E" % qa, "Both(x %s.T, y int) (%s.E, %s.T)" % (qa, qa, qa), "Void(x %s.E)" % qa, "Var(a string, xs ...%s.T) %s.E" % (qa, qa)]
+    return [{"name": "RepSvc", "tparams": "", "body": body, "feature": "replace-type.result-nillability", "targs": [], "exported": True, "features": [], "no_iface": True}]
+
+
 def kf_key(f):
     feats = [x for x in f.get("features") or [] if x.startswith("arg.nil-interface") or x in ("no-unroll", "unroll", "variadic", "variadic-nil-element")]
     return "c03:%s:%s:%s" % (f["style"], f["sig"], "+".join(sorted(set(feats))))
 
 
 def eval_case(ctx, case):
-    ifaces = c01.case_ifaces(case)
+    if case["kind"] == "replace":
+        ifaces = replace_case_ifaces(case)
+        ma, mb = gosrc.MOD + "/ext/" + gosrc.FOREIGN["ma"][0], gosrc.MOD + "/ext/" + gosrc.FOREIGN["mb"][0]
+        case = dict(case, extra_cfg={"replace-type": {ma: {k: {"pkg-path": mb, "type-name": v} for k, v in case["replace"].items()}}})
+    else:
+        ifaces = c01.case_ifaces(case)
     root, info, usable, note = drvrun.prepare(ctx, case, ifaces, ctx.known)
     if root is None:
         return [(case, Verdict.skipped(note) if usable == [] else Verdict.inconclusive(note))]
